@@ -97,6 +97,15 @@ def toList : FKVs → List (String × FVal)
   | .nil => []
   | .cons k v r => (k, v) :: toList r
 
+/-- first value, `d` when there is none (positional struct access) -/
+def headD : FKVs → FVal → FVal
+  | .cons _ v _, _ => v
+  | .nil, d => d
+
+def tail : FKVs → FKVs
+  | .cons _ _ tl => tl
+  | .nil => .nil
+
 end FKVs
 
 /-- `reflect.Type.AssignableTo` in this universe: identical types, or the target is `any` -/
@@ -132,19 +141,15 @@ def fieldTy : FFields → Seg → Option FTy
 def fieldGet : FFields → FKVs → Seg → Option (FTy × FVal)
   | .nil, _, _ => none
   | .cons n t r, kvs, s =>
-    let cur := match kvs with | .cons _ v _ => v | .nil => zero t
-    let tl := match kvs with | .cons _ _ tl => tl | .nil => .nil
-    if s = n then some (t, cur) else fieldGet r tl s
+    if s = n then some (t, kvs.headD (zero t)) else fieldGet r kvs.tail s
 
-/-- rewrite field `s` with `f`; `none` = no such field or `f` failed.  The result is aligned
-    with the type again. -/
+/-- rewrite field `s` with `f`; `none` = no such field or `f` failed (a missing tail keeps
+    standing for zero values) -/
 def fieldUpd (f : FTy → FVal → Option FVal) : FFields → FKVs → Seg → Option FKVs
   | .nil, _, _ => none
   | .cons n t r, kvs, s =>
-    let cur := match kvs with | .cons _ v _ => v | .nil => zero t
-    let tl := match kvs with | .cons _ _ tl => tl | .nil => .nil
-    if s = n then (f t cur).map (fun v' => .cons n v' (match tl with | .nil => zeroFields r | x => x))
-    else (fieldUpd f r tl s).map (fun tl' => .cons n cur tl')
+    if s = n then (f t (kvs.headD (zero t))).map (fun v' => .cons n v' kvs.tail)
+    else (fieldUpd f r kvs.tail s).map (fun tl' => .cons n (kvs.headD (zero t)) tl')
 
 /-! ## assignment along a target path (`assignOne`) -/
 
@@ -193,16 +198,14 @@ def assign : FTy → FVal → Path → Taken → Option FVal
         (fieldUpd (fun ft fv => assign ft fv r a) fs (derefRec t fs d) s).map (rewrap t)
       | none => none
 
-/-- reading a target path back (type-directed, through instantiated and not yet instantiated
-    pointers alike; a missing map key reads as `none`) -/
+/-- reading a target path back, type-directed, through what is instantiated and what is not yet
+    instantiated alike: a nil pointer reads as the zero struct and an absent map entry as the
+    instance `assign` would create, i.e. "still zero" -/
 def getT : FTy → FVal → Path → Option (FTy × FVal)
   | t, d, [] => some (t, d)
   | t, d, s :: r =>
     match mapOf t d with
-    | some (e, kvs) =>
-      match kvs.lookup s with
-      | some v => getT e v r
-      | none => none
+    | some (e, kvs) => getT e ((kvs.lookup s).getD (newInstance e)) r
     | none =>
       match structOf t with
       | some fs =>
